@@ -71,7 +71,8 @@ WithNul(ls) == IF Len(ls) = 0 THEN ls ELSE <<ls[1], NULLINE>> \o Tail(ls)
 Selected(s) == IF s.kind = "z" THEN s.zstate # "unrec" ELSE s.preglob \in {"none", "sel", "negsel"}
 Spawned(s) == ~(s.kind = "missing" \/ (s.kind = "z" /\ s.zstate = "nocmd"))
 \* the model knows the bytes the command writes, except for a truncated archive
-KnownChild(s) == s.kind = "pre" \/ (s.kind = "z" /\ s.zstate = "valid")
+\* (noisy: a valid archive whose decompressor first writes several hundred KB to its stderr and then succeeds: no effect)
+KnownChild(s) == s.kind = "pre" \/ (s.kind = "z" /\ s.zstate \in {"valid", "noisy"})
 
 Full(s) == LET t == Transform(s.xform, s.content) IN IF s.early = "bin" THEN WithNul(t) ELSE t
 Written(s) ==
